@@ -337,6 +337,9 @@ META = (META[0] + ' FIRSTREAD (every search that scans by itself is executed ove
 META = (META[0] + ' TRAITSORD (the ordering operations of the view order characters through Traits::compare / Traits::lt, never with the built-in `<` or a comparator-less ordering algorithm).', META[1])
 
 
+META = (META[0] + ' CHARCAST (the generic char_traits convert a character to a fixed narrow type only under is_same_v<char_type, char>).', META[1])
+
+
 def run(chk, tier):
     db = D.load("checks")
     from ..rules import params as _PR
@@ -352,6 +355,9 @@ def run(chk, tier):
     from ..rules import extra8 as _X8
     if _X8.traits_order_area(chk, db, ['_string_view/basic_string_view.hpp']) < 4:      # TRAITSORD
         chk.analysis_broken('TRAITSORD: fewer than 4 ordering operations of basic_string_view found (floor 4)')
+    from ..rules import extra10 as _X10c
+    if _X10c.char_cast_area(chk, db, ('_string/char_traits.hpp',)) < 2:      # CHARCAST
+        chk.analysis_broken('CHARCAST: fewer than 2 narrowing conversions of a character found in char_traits (floor 2)')
     if _EX.check_first_read(chk, db) < 4:      # FIRSTREAD: the first character a positional search looks at
         chk.analysis_broken("FIRSTREAD: fewer than 4 searches that scan by themselves (floor 4)")
     if _EX.check_rwindow(chk, db) < 1:      # both rfind members became pure delegations: nothing to judge here
